@@ -637,8 +637,11 @@ def run(ctx: Context, rep) -> None:
                "<not found>") + (f" :: {witness}" if witness else ""),
            message="each of the workers is handed an input or a sentinel "
            "before the consumer waits for the first result")
-
-
+    # nothing read from the dataset's files / the environment is memoised
+    from sa.rules import shared as _shm
+    _shm.check_no_memo(ctx, rep, "C13.memo")
+    _shm.check_no_shared_class_state(ctx, rep, "C13.class-state")
+    _shm.check_assert_pure(ctx, rep, "C13.assert")
 
 _LP = "src/sedpack/io/itertools/lazy_pool.py"
 SELFTESTS = [
